@@ -38,9 +38,11 @@ def _check(job):
     n = 0
     divs = []
     wd = par.workdir()
-    paths, _ = dsreplay.write_files(obj, "text")
+    paths, climp = dsreplay.write_files(obj, "text")
     for (kind, to_file, leg, acc) in combos:
         argv = list(paths) + ["-m", obj["metric"], "-x", obj["axis"], "-type", kind]
+        if climp:
+            argv += ["-c" if obj["climType"] == "subtract" else "-C", climp]
         if obj["axis"] == "threshold":
             argv += ["-r", ",".join(str(t) for t in obj["thresholds"]), "-b", obj["bt"]]
             acc = False
@@ -75,6 +77,8 @@ def _check(job):
             divs.append(("table:%s" % kind, "%s: %s" % (" ".join(argv[2:]), msg), rep))
     for mt in obj.get("multi", []):
         argv = list(paths) + ["-m", obj["metric"], "-x", obj["axis"], "-type", "csv", "-r", ",".join(str(t) for t in mt["r"]), "-b", mt["bt"]]
+        if climp:
+            argv += ["-c" if obj["climType"] == "subtract" else "-C", climp]
         rep = {"kind": "table", "argv": argv, "files": [open(p).read() for p in paths], "expected": mt["table"], "type": "csv", "axis": obj["axis"]}
         status, text = run_verif(argv)
         n += 1
